@@ -377,6 +377,35 @@ pub fn check_files(files: Vec<Vec<u8>>, plan_in: &Plan, trailing: &[u8], obs: &m
 			return Err(format!("after the masked read of class #{k} the stream is at {} instead of {end} (the visitor skipped or declined something)", cur.position()));
 		}
 	}
+	// the same reads from a stream that hands out 1..5 bytes per `read` call (what a BufReader does at the end of its
+	// buffer, a pipe, a socket): same classes, same positions
+	if stream.len() < 20000 {
+		let mut sr = crate::engine::ShortReads::new(&stream);
+		let mut mv2 = MaskedMulti::new(plan.to_duke());
+		for (k, end) in ends.iter().enumerate() {
+			mv2 = duke::read_class_multi(&mut sr, mv2).map_err(|e| format!("masked read of class #{k} from a stream with short reads failed: {e:#}"))?;
+			if sr.position() != *end {
+				return Err(format!("after the masked read of class #{k} a stream with short reads is at {} instead of {end}", sr.position()));
+			}
+		}
+		if mv2.classes.len() != mv.classes.len() {
+			return Err(format!("masked visitor received {} classes from a stream with short reads, {} from a slice", mv2.classes.len(), mv.classes.len()));
+		}
+		for (k, (a, b)) in mv.classes.iter().zip(mv2.classes.iter()).enumerate() {
+			let (pa, pb) = (project_class(a)?, project_class(b)?);
+			if pa != pb {
+				return Err(format!("received class #{k}: a stream with short reads delivers something else than a slice: {}", first_diff(&pa, &pb)));
+			}
+		}
+		let mut sr = crate::engine::ShortReads::new(&stream);
+		for (k, end) in ends.iter().enumerate() {
+			duke::read_class_multi(&mut sr, ()).map_err(|e| format!("read of class #{k} into () from a stream with short reads failed: {e:#}"))?;
+			if sr.position() != *end {
+				return Err(format!("after reading class #{k} into () a stream with short reads is at {} instead of {end}", sr.position()));
+			}
+		}
+		obs.label("also_read_from_a_stream_with_short_reads");
+	}
 	let kept: Vec<usize> = (0..files.len()).filter(|k| !plan.decline_classes.contains(k)).collect();
 	if mv.classes.len() != kept.len() {
 		return Err(format!("masked visitor received {} classes, expected {}", mv.classes.len(), kept.len()));
